@@ -198,8 +198,24 @@ CHECKS['C04'] = dict(
          'par_bridge, for_each*, find_any, reductions), that every parallel sort is paired with the stable sequential sort on the other arm of '
          'the threshold test over the same collection with an identical comparator, and that parallel predicate filters classify predicate '
          'values like their sequential siblings. Necessary conditions of threshold independence for all data and thread schedules.',
-    note='Not decided: correctness of chunk merging in the parallel hash-join build, float associativity in SIMD kernels, the cfg(not(parallel)) arms.',
+    note='Also decided since the build round: chunk-index base of the parallel hash-join build (R5), coverage of hand-made partitions (R6), context carried '
+         'into the per-row evaluators of the parallel filters (R7), order-independent resolution of unqualified column names (R4: the "repeated execution" '
+         'clause). Not decided: float associativity in SIMD kernels, the cfg(not(parallel)) arms, the order in which rayon concatenates collected chunks '
+         '(documented rayon behaviour).',
     design='§4 C04 (plan) and §10.3 (as built)')
+
+CHECKS['C03'] = dict(
+    technique='gate/clause coverage table of the fast path (T8: every SelectStmt clause handed over, declined, or exempt), comparator fallback analysis over MIR '
+              '(no "unknown pair = Equal"), sibling agreement of the MIN/MAX comparator with the row accumulator, COUNT(*) / COUNT(column) specification rule',
+    text='Decides four structural necessary conditions of "the columnar aggregate path answers like the row path": the gate neither ignores a result-changing '
+         'clause (HAVING, LIMIT, OFFSET, DISTINCT, GROUP BY, set operations), the empty-input shortcut distinguishes COUNT (never NULL), no comparator of the '
+         'columnar module declares an unknown pair of value types equal, MIN/MAX use the row accumulator\'s comparator, and COUNT(*) is computed from rows while '
+         'COUNT(column) is computed from non-NULL values. Every rule was written from a defect demonstrated on the pinned tree (7 repairs) and fires on the '
+         'pre-repair code.',
+    note='The property was listed as not applicable in the plan (value-level agreement). That judgement stands for the numeric clauses (sums, averages, result '
+         'types: SUM of integers is a DOUBLE on the fast path, SIMD kernels); the clauses above are decided, not the behaviour. NULL handling of columnar predicates '
+         'is decided under C06 (null, exact), wrap-around of columnar SUM under C24.',
+    design='§10.3 C03 (as built) and §10.4 (why the plan\'s not-applicable was revised)')
 
 CHECKS['C30'] = dict(
     technique='symbolic key/value agreement of the statement cache (T10); state-machine shape rule for the placeholder scanners (quote flag dominates the ? action); exhaustive match tables (T8); dominance rule for the bool-before-int conversion order',
@@ -251,7 +267,6 @@ CHECKS['C24'] = dict(
 
 NOT_APPLICABLE = {
     'C01': 'Equality of result multisets with a reference engine is a value-level semantic equivalence over all queries and data; no structural necessary condition beyond those claimed under C06/C21/C24 exists and a static rule cannot stand in for an oracle.',
-    'C03': 'Columnar-vs-row agreement is determined by computed values (empty input, NULL handling, sums); a rejected shape falls back safely, so no table-agreement obligation exists whose breach necessarily changes results.',
     'C05': 'Rewrite/join-order invariance is semantic equivalence of plans; the decorrelation walkers are heuristic by design, so no completeness rule can be stated whose violation necessarily changes results.',
     'C07': 'Aggregate definitions on every multiset are numeric results; the only structural prerequisite (hash/equality coherence of group keys) is C21.',
     'C08': 'Sortedness, slice arithmetic and distinctness are properties of runtime sequences; parallel-sort stability is claimed under C04.',
